@@ -18,10 +18,11 @@ From Coq Require Import ZArith List Bool Arith.
 Import ListNotations.
 Open Scope Z_scope.
 
-Inductive fmt := Nii | Pair | Mgh.      (* NIfTI-1 single file; NIfTI-1 .img/.hdr pair; MGH/MGZ *)
+Inductive fmt := Nii | Pair | Mgh | Spm.
+(* NIfTI-1 single file; NIfTI-1 .img/.hdr pair; MGH/MGZ; SPM2 Analyze .img/.hdr/.mat triple *)
 Inductive dtype := F4 | F8.
 Definition fmt_eqb (a b : fmt) : bool :=
-  match a, b with Nii, Nii | Pair, Pair | Mgh, Mgh => true | _, _ => false end.
+  match a, b with Nii, Nii | Pair, Pair | Mgh, Mgh | Spm, Spm => true | _, _ => false end.
 Definition dtype_eqb (a b : dtype) : bool :=
   match a, b with F4, F4 | F8, F8 => true | _, _ => false end.
 Definition isz (d : dtype) : Z := match d with F4 => 4 | F8 => 8 end.
@@ -126,9 +127,10 @@ Inductive op :=
 | EditHdr (s : nat)
 | SetDtype (s : nat)
 | Save (s p : nat)
+| SaveFull (s : nat)          (* save onto a name of the image's own class that is a link to /dev/full *)
 | ToBytes (s : nat).
 
-Inductive err := ENoImage | ENoFile | EShortRead | ENoConversion | ENotSerializable.
+Inductive err := ENoImage | ENoFile | EShortRead | ENoConversion | ENotSerializable | ENoSpace.
 Inductive out :=
 | ODone
 | OVal (v : option nat)                                  (* get_fdata: which value (None = garbage) *)
@@ -222,7 +224,7 @@ Definition do_tobytes (g : cfg) (w : world) (s : nat) : world * out :=
   | None => (w, ORefused ENoImage)
   | Some im =>
     match i_fmt im with
-    | Pair => (w, ORefused ENotSerializable)
+    | Pair | Spm => (w, ORefused ENotSerializable)
     | _ =>
       match denote g (w_fs w) im with
       | RVal v => (w, OBytes v (i_hdt im) (i_aff im))
@@ -253,6 +255,18 @@ Definition step (g : cfg) (w : world) (o : op) : world * out :=
     | Some im => (set_img w s (mkI (i_src im) (i_fmt im) (toggle (i_fmt im) (i_hdt im)) (i_aff im) (i_cache im)), ODone)
     end
   | Save s t => do_save g w s t
+  | SaveFull s =>
+    (* the data are read, the target opened, the write fails with ENOSPC: OSError; no file of the
+       world and no image changes (the consumable header values are restored in `finally`) *)
+    match img_at w s with
+    | None => (w, ORefused ENoImage)
+    | Some im =>
+      match denote g (w_fs w) im with
+      | RVal _ => (w, ORefused ENoSpace)
+      | RRefused => (w, ORefused EShortRead)
+      | RCrash => (kill w, OCrash)
+      end
+    end
   | ToBytes s => do_tobytes g w s
   end.
 
